@@ -247,11 +247,10 @@ pub(crate) fn add(ctx: &mut TulispContext) {
         condition: TulispObject,
         rest: TulispObject,
     ) -> Result<TulispObject, Error> {
-        let mut result = TulispObject::nil();
         while !eval_check_null(ctx, &condition)? {
-            result = ctx.eval_progn(&rest)?;
+            ctx.eval_progn(&rest)?;
         }
-        Ok(result)
+        Ok(TulispObject::nil())
     }
 
     fn setq(ctx: &mut TulispContext, args: &TulispObject) -> Result<TulispObject, Error> {
